@@ -9,6 +9,7 @@ from ..protocol.messages.json_rpc_message import (
 )
 from ..protocol.types.info import ServerInfo
 from ..protocol.types.capabilities import ServerCapabilities
+from ..protocol.types.versioning import ProtocolVersion
 from .session.memory import SessionManager
 
 
@@ -82,6 +83,14 @@ class ProtocolHandler:
         params = getattr(message, "params", None) or {}
         client_info = params.get("clientInfo", {})
         protocol_version = params.get("protocolVersion", "2025-03-26")
+
+        # Per MCP lifecycle: answer with the requested version only when we
+        # support it, otherwise with the latest version we do support
+        if not (
+            isinstance(protocol_version, str)
+            and ProtocolVersion.is_supported(protocol_version)
+        ):
+            protocol_version = ProtocolVersion.get_latest_supported()
 
         # Create session
         new_session_id = self.session_manager.create_session(
